@@ -243,3 +243,65 @@ Section FlushTable.
     split; [exact O1|]. split; [exact O3|]. split; [exact Hs|reflexivity].
   Qed.
 End FlushTable.
+
+(* ------------------------------------------------------------------ what the flushed buffer holds *)
+(* One journal record in read-write mode (Store/OpenPath.v replay_record with flush = true) is the read-only step —
+   whose buffer afterwards holds what it held plus the stamped records of the batch, when the sequence rule accepts it —
+   followed, when the buffer has reached the write buffer size, by flush_memdb of exactly that buffer and a Reset.  So
+   the buffer a flush writes out holds exactly the stamped records of the batches accepted since the last Reset (the
+   recovery resets the buffer at the start of every journal and after every flush), and flush_memdb_table_ok says the
+   table holds exactly those, in iComparer order. *)
+Section ReplayFlush.
+  Variable rp : SR.rparams.
+  Variable kp : kparams.
+  Hypothesis kpok : kparams_ok kp.
+  Hypothesis seek_val : keyTypeSeek kp <= keyTypeVal kp.
+  Variable mp : MemDB.mparams.
+  Hypothesis mpok : MemDB.mparams_ok mp.
+  Variable tp : tparams.
+  Variable tcrc : bytes -> N.
+  Variable compress : bytes -> bytes.
+  Variable snappy : bool.
+  Variable fgen : option (bytes * (list (N * list bytes) -> bytes)).
+  Variable blockSize ri : N.
+  Variable c : comparer.
+  Hypothesis cok : comparer_ok c.
+
+  Local Notation bhl := 12.
+  Local Notation minv := (OpenJournalProofs.mem_inv kp mp c).
+  Local Notation flushm := (flush_memdb rp kp mp tp tcrc compress snappy fgen blockSize ri c).
+  Local Notation rrec := (replay_record rp kp bhl mp tp tcrc compress snappy fgen blockSize ri c).
+  Local Notation ents st := (mem_entries mp (Some (r_mdb st))).
+
+  Theorem replay_record_rw_decompose o j b st st' :
+    oo_strict_j o = false -> OpenJournalProofs.jb_ok kp b -> minv st -> rrec o true j (jb_enc kp b) st = OOk st' ->
+    exists st1,
+      rrec o false j (jb_enc kp b) st = OOk st1 /\ minv st1 /\ r_c st1 = r_c st /\ r_rec st1 = r_rec st /\
+      (if fst b <? r_seq st then r_mdb st1 = r_mdb st
+       else forall x, In x (ents st1) <-> In x (ents st) \/ In x (jb_entries kp b)) /\
+      (st' = st1 \/
+       exists st2, flushm st1 = OOk st2 /\ r_c st' = r_c st2 /\ r_rec st' = r_rec st2 /\ ents st' = [] /\ minv st').
+  Proof.
+    intros Hns Hb Hinv.
+    destruct (replay_record_written rp kp kpok seek_val mp mpok tp tcrc compress snappy fgen blockSize ri c cok
+                o j b st Hns Hb Hinv) as (st1 & E1 & Ec1 & Er1 & Hinv1 & Hcase).
+    intros E. exists st1. split; [exact E1|]. split; [exact Hinv1|]. split; [exact Ec1|]. split; [exact Er1|].
+    split.
+    { destruct (fst b <? r_seq st); [exact (proj1 (proj2 Hcase))|exact (proj2 (proj2 Hcase))]. }
+    revert E1 E. unfold replay_record.
+    destruct (BT.decode_to_mem kp bhl (ibc c) mp (jb_enc kp b) (r_seq st) (r_mdb st) (r_hts st)) as [sq bl d hts|e d hts| |];
+      try discriminate.
+    - cbn [andb]. intros E1. injection E1 as <-.
+      destruct (oo_wbuf o <=? MemDB.mdb_size d)%Z; [|intros E; injection E as <-; left; reflexivity].
+      set (st1 := mkRJ _ _ _ _ _ _) in *.
+      destruct (flushm st1) as [st2|e2] eqn:Ef; cbn [obind]; [|discriminate].
+      destruct (flush_memdb_facts rp kp mp tp tcrc compress snappy fgen blockSize ri c _ _ Ef) as (Fs & Fm & Fh & Fk & Fj).
+      destruct (reset_mem_ok kp seek_val mp mpok c (r_mdb st2)) as (d0 & Er & Hm0 & He0); [rewrite Fm; exact (proj1 Hinv1)|].
+      rewrite Er. cbn [of_mres obind]. intros E. injection E as <-. right. exists st2.
+      split; [reflexivity|]. unfold set_mdb. cbn [r_c r_rec r_mdb r_seq r_hts]. split; [reflexivity|]. split; [reflexivity|].
+      split; [exact He0|].
+      unfold OpenJournalProofs.mem_inv. cbn [r_seq r_mdb r_hts].
+      split; [exact Hm0|]. split; [rewrite Fh; exact (proj1 (proj2 Hinv1))|]. intros x Hx. rewrite He0 in Hx. destruct Hx.
+    - rewrite Hns. intros E1 E. rewrite E1 in E. injection E as <-. left. reflexivity.
+  Qed.
+End ReplayFlush.
